@@ -299,6 +299,33 @@ def check_array_recursion(ctx, rep, rule, names=('mark', 'untrace')):
 
 
 
+def check_recursion_removes(ctx, rep, rule, name='untrace'):
+    """untrace follows arrays into their elements.  What makes that walk end on an array that contains itself, and linear on
+    shared sub-arrays, is that a step recurses only AFTER it has taken its own object out of the managed list (a second visit
+    finds nothing and stops): every recursive call is dominated by the removal of the object this call was given."""
+    F = ctx.facts()
+    fn = F.fn(GCN + name)
+    dom = fn.dominators()
+    removals = [b for b, t in fn.calls() if callee_name(t) in ('alloc::vec::Vec::<T, A>::swap_remove', 'alloc::vec::Vec::<T, A>::remove')]
+    n = 0
+    for b, t in fn.calls():
+        if callee_name(t) != fn.path:
+            continue
+        n += 1
+        ok = any(fn.dominates(r, b) for r in removals)
+        rep.ob(ok, rule, fn.path, 'recursive call#%d' % n, 'the walk into the elements happens only after this object was found in and removed from the managed list '
+               '(otherwise an array that contains itself is walked forever and shared sub-arrays once per path)', span_loc(t['span']))
+    rep.count('%s_recursive_calls' % name, n)
+
+
+def check_no_static_values(ctx, rep, rule):
+    """no item with static lifetime can hold a value of the language: such a value would outlive the collector that manages it
+    (released under the static's feet, or never) and be shared between evaluations"""
+    F = ctx.facts()
+    st = [s for s in F.lib['statics'] if 'Object' in s.get('ty', '') or s.get('interior_mut') or s.get('mut')]
+    rep.ob(not st, rule, 'crate', 'static items that can hold values', 'no static / thread_local item of the crate can hold an Object: %s' % [(s['path'], s.get('ty')) for s in st], None)
+
+
 def check_who_frees(ctx, rep, rule):
     """memory goes back to the allocator only through the collector's sweep, or through free_recursive on a result the caller owns"""
     F = ctx.facts()
